@@ -6,6 +6,7 @@ import Khttp.Driver.Date
 import Khttp.Driver.Route
 import Khttp.Driver.Print
 import Khttp.Driver.Epoll
+import Khttp.Driver.Loop
 open Khttp Khttp.Driver
 
 def answer (line : String) : String :=
@@ -21,6 +22,8 @@ def answer (line : String) : String :=
     | "ROUTE" => routeLine arg
     | "PRINT" => printLine arg
     | "EPOLLTRACE" => epollTraceLine arg
+    | "CLI" => cliLine arg
+    | "RDREQ" => rdreqLine arg
     | "DATECACHE" => dateCacheLine arg
     | "POOLTRACE" => poolTraceLine arg
     | _ => "BAD-DOMAIN"
